@@ -1,4 +1,6 @@
 //! Harnesses attached to rodbus/src/tcp/server.rs (SessionTracker)
+//! ATTEMPTED AND INTRACTABLE: both queries exceeded 30 min (BTreeMap<u128, mpsc::Sender>: node handling + tokio channel
+//! internals; a 2-connection variant ran out of memory). Unregistered (`props: ZZ`); C15 is listed as not_applicable.
 #![allow(unused)]
 use super::*;
 
@@ -44,7 +46,7 @@ fn tracker_adds<const K: usize>() {
     std::mem::forget(rxs);
 }
 
-//@ props: C15
+//@ props: ZZ
 //@ timeout: 900
 //@ fns: tcp::server::SessionTracker::new, SessionTracker::add, SessionTracker::get_next_id
 //@ bounds: max_sessions in 0..=3 (symbolic), 3 consecutive connections
@@ -55,48 +57,8 @@ fn c15_tracker_adds_q() {
     tracker_adds::<3>();
 }
 
-//@ props: ZZ
-//@ timeout: 900
-#[kani::proof]
-#[kani::unwind(6)]
-fn zz15_adds2() {
-    tracker_adds::<2>();
-}
 
 //@ props: ZZ
-//@ timeout: 900
-#[kani::proof]
-#[kani::unwind(6)]
-fn zz15_channels_only() {
-    let (tx0, rx0) = tokio::sync::mpsc::channel::<ServerCommand>(1);
-    let (tx1, rx1) = tokio::sync::mpsc::channel::<ServerCommand>(1);
-    drop(tx0);
-    assert!(rx0.is_closed());
-    assert!(!rx1.is_closed());
-    std::mem::forget((rx0, rx1, tx1));
-}
-
-//@ props: ZZ
-//@ timeout: 900
-#[kani::proof]
-#[kani::unwind(6)]
-fn zz15_map_only() {
-    let max: usize = kani::any();
-    kani::assume(max <= 3);
-    let mut m: BTreeMap<u128, u8> = BTreeMap::new();
-    let mut i: u128 = 0;
-    while i < 3 {
-        if m.len() >= max {
-            if let Some(o) = m.keys().next().copied() { m.remove(&o); }
-        }
-        m.insert(i, 1);
-        i += 1;
-    }
-    assert!(m.len() <= 3);
-    std::mem::forget(m);
-}
-
-//@ props: C15
 //@ timeout: 900
 //@ fns: tcp::server::SessionTracker::add, SessionTracker::remove
 //@ bounds: max_sessions in 1..=3 (symbolic); 2 connections, removal of a symbolic id (present or absent), 2 more connections
